@@ -694,7 +694,7 @@ _worker_ready = False
 
 def _worker_init():
     global _worker_ready
-    sys.path[:0] = [str(Path(__file__).resolve().parent), "/repo/src"]
+    sys.path[:0] = [str(Path(__file__).resolve().parent), os.environ.get("VERIF_REPO", "/repo") + "/src"]
     os.environ.setdefault("MEANINGFUL_DATA_VTLENGINE_VERIF", "1")
     import engine
     engine.install(need_parser=True)
